@@ -63,6 +63,7 @@ type Contract struct {
 	File      string
 	Line      int
 	usedLoops map[int]bool
+	TimeoutS  int // "timeout N": solver time limit in seconds for this function's obligations (a limit, not a cost)
 	curView   string   // while parsing: the view that following ensures/loop clauses belong to
 	Views     []string // the proof views declared by "view <name>" lines, in order
 	Notes     []string
@@ -138,7 +139,7 @@ type ContractFile struct {
 }
 
 var clauseKeywords = map[string]bool{"recovers-first": true, "assumes": true, "allows": true, "requires": true, "ensures": true, "modifies": true, "loop": true, "at": true, "inline": true,
-	"trusted": true, "decreases": true, "allocates": true, "note": true, "shared": true, "view": true}
+	"trusted": true, "decreases": true, "allocates": true, "note": true, "shared": true, "view": true, "timeout": true}
 
 func parseContractFile(path, pkgPath string) (*ContractFile, error) {
 	data, err := os.ReadFile(path)
@@ -433,6 +434,12 @@ func (cf *ContractFile) addClause(c *Contract, kw, text, path string, line int) 
 			c.Allows = map[string]string{}
 		}
 		c.Allows[site] = reason
+	case "timeout":
+		n, err := strconv.Atoi(strings.TrimSpace(text))
+		if err != nil || n <= 0 {
+			return fmt.Errorf("bad timeout")
+		}
+		c.TimeoutS = n
 	case "recovers-first":
 		c.RecoversFirst = true
 	case "inline":
